@@ -20,7 +20,7 @@ LEVEL = "model_checking"
 def check_state(case):
     o = sc.state_run(case)
     if not case["ok"]:
-        v = "undecided" if case["fok"] else ("ok" if o["err"] else "accepted-unequal-inner")
+        v = "ok" if o["err"] else "accepted-unequal-inner"
     elif o["err"]:
         v = "error-on-valid-spelling"
     elif o["jobs"] != case["jobs"]:
